@@ -37,6 +37,7 @@ class ScriptedExecutor(concurrent.futures.Executor):
 class Ctx:
     def __init__(self):
         self.waiting = threading.Event()
+        self.entered = 0            # how many times the main thread has entered as_completed()
         self.stopping = threading.Event()
         self.nexec = {}
         self.ndeliv = {}
@@ -58,9 +59,14 @@ def controller(ctx, script, fail_at, n_inflight, timeout=60.0):
     ex = None
     t_end = time.time() + timeout
     step = 0
+    served = 0
     while not ctx.stopping.is_set() and time.time() < t_end:
-        if not ctx.waiting.wait(0.05):
+        # serve every call of as_completed() once (a counter, not an event: the main thread may leave
+        # one call and enter the next between two looks of this thread)
+        if ctx.entered == served or not ctx.waiting.is_set():
+            time.sleep(0.002)
             continue
+        cur = ctx.entered
         ex = ScriptedExecutor.current
         want = n_inflight()
         t1 = time.time() + 5
@@ -72,6 +78,7 @@ def controller(ctx, script, fail_at, n_inflight, timeout=60.0):
         if ex is None or not ex.pending:
             time.sleep(0.01)
             continue
+        served = cur
         picks = script[step] if step < len(script) else [0]
         step += 1
         for pk in picks:
@@ -81,9 +88,6 @@ def controller(ctx, script, fail_at, n_inflight, timeout=60.0):
                 ex.pending.sort(key=lambda t: (str(unit_key(t[1], t[2])), t[0]))
                 item = ex.pending.pop(pk % len(ex.pending))
             _run(ctx, item, fail_at)
-        # one delivery per wait: let the main thread take it
-        while ctx.waiting.is_set() and not ctx.stopping.is_set() and time.time() < t_end:
-            time.sleep(0.002)
     # release whatever is still blocked so that stop() can return
     ex = ScriptedExecutor.current
     while ex is not None and ex.pending:
@@ -168,6 +172,7 @@ def run_scheduler(root, n, workers, steps, order_script, outcomes, fail_at=(), s
         orig_as = futures.as_completed
 
         def as_completed():
+            ctx.entered += 1
             ctx.waiting.set()
             try:
                 return orig_as()
@@ -180,6 +185,13 @@ def run_scheduler(root, n, workers, steps, order_script, outcomes, fail_at=(), s
             info["nsubmit"] += 1
             return orig_submit(unit)
         runner.submit_work = submit
+        orig_stop = runner.stop
+
+        def stop():
+            # a real worker would finish its job sooner or later: release what is still blocked
+            ctx.stopping.set()
+            return orig_stop()
+        runner.stop = stop
         return runner, futures
 
     def scripted_select(picked, start_cond=("L",)):
@@ -199,7 +211,8 @@ def run_scheduler(root, n, workers, steps, order_script, outcomes, fail_at=(), s
     patch(tis, "select_shoot", scripted_select)
     nthreads0 = threading.active_count()
     th = threading.Thread(target=controller, daemon=True,
-                          args=(ctx, order_script, set(fail_at), lambda: len(holder["futures"]._futures) if "futures" in holder else 0, watchdog))
+                          args=(ctx, order_script, set(fail_at),
+                                lambda: sum(1 for f in list(holder["futures"]._futures) if not f.done()) if "futures" in holder else 0, watchdog))
     result = {}
 
     def main():
